@@ -31,6 +31,29 @@ class Check(RuntimeCheck):
         # the compiled single-use cases of C17's harness, judged against the proved Output model
         from .c17 import Check as C17
         C17().explore(rep, only_paths=['once'], merge=True, prop=self.prop)
+        # "counted over the original and all clones": the k-th match is well defined also when the matches come from
+        # different threads — all schedules of two clones hitting one response chain
+        from ..parcheck import ParCheck, par_scenario
+        class Par(ParCheck):
+            prop = 'C02'
+            def scenarios(self, tier, seed):
+                chain = term(1, 'each', Pat(mask=255, chain=[seg('ret1', 'n1'), seg('ret2', 'n2'), seg('ret3', '-')]))
+                chain_o = term(0, 'next', Pat(mask=255, chain=[seg('ret1', 'n2'), seg('ret2', 'n1')]))
+                fams = [('c2x2', chain, [[(1, 0), (1, 0)], [(1, 0), (1, 0)]]), ('c3x1', chain, [[(1, 0)], [(1, 0)], [(1, 0)]]),
+                        ('o2x2', chain_o, [[(0, 0), (0, 0)], [(0, 0)]])]
+                return [(n, par_scenario(n, 'strict', tree, threads, False)) for n, tree, threads in fams]
+            def caps(self, tier):
+                return (1500, 50) if tier == 'quick' else (50000, 2000)
+            def judge(self, name, r, seqs):
+                j = super().judge(name, r, seqs)
+                if j:
+                    return j
+                got = sorted(o for t in r['outs'].split('|') for o in t.split(',') if o)
+                want = {'c2x2': ['ret:1', 'ret:2', 'ret:2', 'ret:3'], 'c3x1': ['ret:1', 'ret:2', 'ret:2'], 'o2x2': ['ret:1', 'ret:1', 'ret:2']}[name]
+                if got != sorted(want):
+                    return f"the matches of the chain received {got}, the quantifier chain assigns {sorted(want)}"
+                return None
+        Par().explore_into(rep, tier, seed, merge=True)
 
     def exhaustive(self, tier):
         maxseg = 3 if tier == 'quick' else 4
